@@ -17,6 +17,10 @@ ALGS = ['PaVeBa', 'PaVeBaGP', 'PaVeBaPartialGP', 'VOGP', 'EpsilonPAL', 'Auer', '
 def run(ctx):
     import vopy.algorithms  # noqa: F401
     AC.abstract_model(ctx, ALGS, N=3, batch=2)
+    from . import tlaps
+    nob = tlaps.prove("VOAlgoProofs")       # unbounded: any design set, any relations, any number of rounds (tlapm)
+    ctx.extra["tlaps_obligations_proved"] = nob
+    ctx.trusted.append("tlapm 1.6 back ends (Zenon, SMT, PTL) for the unbounded set-level lemmas of spec/proofs/VOAlgoProofs.tla")
     if ctx.tier == "thorough":
         AC.abstract_model(ctx, [a for a in ALGS if a in ("PaVeBa", "PaVeBaGP", "PaVeBaPartialGP")], N=4, batch=3, maxround=2)
     AC.run_traces(ctx, KIND, PROP)
